@@ -4,3 +4,4 @@ import contracts.linter  # noqa
 INFO = {'not_decided': ['programs that read `locals` (treated, as the code does, as reading every local of that scope)'],
         'stated_lemmas': ['each binding is enumerated exactly once by SourceScope.all_names (regions registered once by add_flow, bindings '
                           'inserted once by add_name)'], 'trusted': []}
+import contracts.linter_bounded  # noqa
